@@ -111,19 +111,51 @@ def field_map(R, P):
         return
     R.fn(f)
     R.fn(rd)
-    calls = sorted(f.calls("s_read_n_digits"), key=lambda e: (e.line,))
-    seq = [(f.is_const(RU.arg(f, c.node, 1)), argstr(f, c.node, 2)) for c in calls]
-    want = [(4, "parsed_time->tm_year"), (2, "parsed_time->tm_mon"), (2, "parsed_time->tm_mday"), (2, "parsed_time->tm_hour"), (2, "parsed_time->tm_min"), (2, "parsed_time->tm_sec"), (2, "hours_offset"), (2, "minutes_offset")]
-    R.check(seq == want, "FIELD-MAP", "iso8601:field-order-and-widths", "%s()" % f.name, "year(4) month day hour minute second then the offset's hours and minutes (2 digits each)", "the ISO 8601 reader reads %s" % seq)
-    dom = dominators(f)
-    okd = all(ev_dominates(f, a, b, dom) for a, b in zip(calls, calls[1:]))
-    R.check(okd, "FIELD-MAP", "iso8601:fields-read-in-sequence", "%s()" % f.name, "each field is read only after the previous one")
-    adj = {}
-    for b in f.blocks.values():
-        for el in b.elems:
-            if el["k"] == "bin" and el["op"] in ("-=", "+="):
-                adj[f.show(f.d(el["a"][0]))] = (el["op"], f.is_const(el["a"][1]))
-    R.check(adj == {"parsed_time->tm_year": ("-=", 1900), "parsed_time->tm_mon": ("-=", 1)}, "FIELD-MAP", "iso8601:struct-tm-adjustments", "%s()" % f.name, "year - 1900 and month - 1, nothing else", "the struct tm adjustments are %s" % adj)
+    # decided on the values (NUM): the k-th group of digits read has the width ISO 8601 gives it, and at every accepting
+    # return the struct tm holds year-1900, month-1, day, hour, minute, second of the groups read so far - whether a group is
+    # read straight into its field or into a local first, adjusted in place or on assignment
+    class _IsoHooks(C04.ParserHooks):
+        def call(self, num_, st, e, args):
+            if e.get("callee") == "s_read_n_digits" and len(e.get("a", [])) == 3:
+                d_ = Poly.atom(num_.fresh(st, "digits", None, (0, 9999)))
+                tgt = num_.fn.d(e["a"][2])
+                while tgt is not None and tgt["k"] == "cast":
+                    tgt = num_.fn.d(tgt["a"][0])
+                if tgt is not None and tgt["k"] == "un" and tgt["op"] == "addr":
+                    num_.write(num_.fn.d(tgt["a"][0]), d_, st)
+                w_ = args[1].cval() if args[1] is not None and args[1].is_const() else None
+                st.notes["reads"] = tuple(st.notes.get("reads", ())) + ((w_, d_),)
+                return Poly.atom(num_.fresh(st, "read_ok", None, (0, 1)))
+            return C04.ParserHooks.call(self, num_, st, e, args)
+    numi = Num(f, P, _IsoHooks(), max_paths=30000)
+    retsi = [x for b in f.blocks.values() for x in b.elems if x["k"] == "ret"]
+    try:
+        stsi = numi.states_at({r_["id"] for r_ in retsi})
+    except Limit as ex:
+        R.broken(str(ex))
+        stsi = {}
+    widths = [4, 2, 2, 2, 2, 2, 2, 2]
+    fields = [("tm_year", 1900), ("tm_mon", 1), ("tm_mday", 0), ("tm_hour", 0), ("tm_min", 0), ("tm_sec", 0)]
+    n_acc, badw, badf = 0, None, None
+    for r_ in retsi:
+        for st in stsi.get(r_["id"], []):
+            rv = numi.val(r_["a"][0], st) if r_.get("a") else None
+            if rv is None or not rv.is_const() or rv.cval() != 1:
+                continue
+            rd_ = st.notes.get("reads", ())
+            n_acc += 1
+            if [w for w, d in rd_] != widths[:len(rd_)] or len(rd_) < 3:
+                badw = [w for w, d in rd_]
+            for k_, (fld, adj) in enumerate(fields):
+                if k_ >= len(rd_):
+                    break
+                v_ = [x for key_, x in st.env.items() if key_.endswith("->" + fld) and not key_.startswith("&")]
+                want = rd_[k_][1] - adj
+                if len(v_) != 1 or not (entails(st, v_[0] - want) and entails(st, want - v_[0])):
+                    badf = "%s holds %r for the digits %r (expected digits - %d)" % (fld, v_, rd_[k_][1], adj)
+    R.require(n_acc >= 3, "s_parse_iso_8601: only %d accepting return states" % n_acc)
+    R.check(badw is None, "FIELD-MAP", "iso8601:field-order-and-widths", "%s()" % f.name, "year(4) month day hour minute second then the offset's hours and minutes (2 digits each)", "the ISO 8601 reader reads digit groups of widths %s" % badw)
+    R.check(badf is None, "FIELD-MAP", "iso8601:struct-tm-adjustments", "%s()" % f.name, "year - 1900 and month - 1, the other fields as read (%d accepting states)" % n_acc, "the struct tm is filled wrongly: %s" % badf)
     # digit accumulation val = val*10 + (c - '0') under isdigit
     acc = None
     for b in rd.blocks.values():
@@ -311,17 +343,26 @@ def offsets(R, P):
     bases = [g.is_const(RU.arg(g, e.node, 2)) for e in st_]
     R.check(len(st_) == 2 and bases == [10, 10], "OFFSET", "init_from_str:zone-digits-decimal", where(g, st_[0]) if st_ else g.name, "both zone fields are converted with base 10",
             "the RFC 822 zone digits are converted with base %s: with base 0 a leading zero selects octal, so +0800 / +0930 lose their hours / minutes (08, 09 are not octal numbers)" % bases)
-    # the sign of the RFC 822 offset follows tz[0] == '-'
+    # the sign of the RFC 822 offset follows tz[0] == '-': one negation `V = -V` of the variable that carries the offset
+    # (whatever it is called, also inside an expanded helper), reached exactly under tz[0] == '-', not modified afterwards,
+    # and V is what ends up subtracted from the timestamp
+    offv = g.show(g.d(sub["a"][1]))
     negs = []
     for b in g.blocks.values():
         for el in b.elems:
-            if el["k"] == "bin" and el["op"] == "=" and g.show(g.d(el["a"][0])) == "seconds_offset" and g.show(g.d(el["a"][1])).replace(" ", "") in ("-seconds_offset", "(-seconds_offset)"):
-                negs.append((b, el))
+            if el["k"] == "bin" and el["op"] == "=":
+                l_, r_ = g.d(el["a"][0]), RU.uncast(g, el["a"][1])
+                if l_ is not None and l_["k"] == "var" and r_ is not None and r_["k"] == "un" and r_["op"] == "-":
+                    x_ = RU.uncast(g, r_["a"][0])
+                    if x_ is not None and x_["k"] == "var" and x_["n"] == l_["n"]:
+                        negs.append((b, el, l_["n"]))
     okn = len(negs) == 1
     if okn:
         e0 = [e for e in g.all_events() if e.blk == negs[0][0].id][0]
-        gs = [RU.cmp_norm(g, c, pol) for c, pol, bb in RU.guards(g, e0)]
-        okn = any(x is not None and "tz[0]" in g.show(x[0]) and x[1] == "==" and g.is_const(RU.uncast(g, x[2])) == 45 for x in gs)
+        gs = [RU.cmp_norm(g, c_, pol) for c_, pol, bb in RU.guards(g, e0)]
+        okn = any(x is not None and x[2] is not None and "tz[0]" in g.show(x[0]) and x[1] == "==" and g.is_const(RU.uncast(g, x[2])) == 45 for x in gs)
+        tainted, et = RU.derives(g, lambda n_: n_["k"] == "var" and n_["n"] == negs[0][2])
+        okn = okn and (negs[0][2] == offv or offv in tainted)
     R.check(okn, "OFFSET", "init_from_str:rfc822-sign", "%s()" % g.name, "the RFC 822 offset is negated exactly when tz[0] is '-' and not changed afterwards",
             "the RFC 822 numeric zone's sign handling is not `negate the whole offset iff tz[0] == '-'`")
     if negs:
@@ -329,9 +370,11 @@ def offsets(R, P):
         later = []
         e0 = [e for e in g.all_events() if e.blk == negs[0][0].id][-1]
         for e in RU.reach_from(g, e0):
-            if e.kind == "access" and e.mode in ("w", "rw") and e.node["k"] == "var" and e.node["n"] == "seconds_offset" and e.blk != negs[0][0].id:
+            if e.kind == "access" and e.mode in ("rw",) and e.node["k"] == "var" and e.node["n"] in (negs[0][2], offv) and e.blk != negs[0][0].id:
                 later.append(e)
-        R.check(not later, "OFFSET", "init_from_str:offset-final-after-sign", "%s()" % g.name, "seconds_offset is not modified after its sign has been applied", "seconds_offset is modified after the sign was applied (at line %s)" % [e.line for e in later])
+            if e.kind == "access" and e.mode == "w" and e.node["k"] == "var" and e.node["n"] == negs[0][2] and e.blk != negs[0][0].id:
+                later.append(e)
+        R.check(not later, "OFFSET", "init_from_str:offset-final-after-sign", "%s()" % g.name, "the offset is not modified after its sign has been applied", "the offset is modified after the sign was applied (at line %s)" % [e.line for e in later])
 
 
 def format_table(R, P):
@@ -457,14 +500,21 @@ def units(R, P):
         conv = f.calls("aws_timestamp_convert")
         ts = f.field_accesses(rec="aws_date_time", field="timestamp", modes=("w",))
         ms = f.field_accesses(rec="aws_date_time", field="milliseconds", modes=("w",))
-        ok = len(conv) == 1 and argstr(f, conv[0].node, 3) == "milliseconds" and len(ts) == 1 and len(ms) == 1
+        ok = len(conv) == 1 and len(ts) == 1 and len(ms) == 1
         if ok:
-            stores = {}
+            # roles: the remainder is the variable the conversion writes through its last argument; the timestamp is the
+            # conversion's result and the milliseconds field that remainder, each possibly through a temporary / a cast
+            rem = argstr(f, conv[0].node, 3)
+            rhs = {}
             for b in f.blocks.values():
                 for el in b.elems:
                     if el["k"] == "bin" and el["op"] == "=":
-                        stores[f.show(f.d(el["a"][0]))] = f.show(f.d(el["a"][1]))
-            ok = "aws_timestamp_convert" in stores.get("dt->timestamp", "") and "milliseconds" in stores.get("dt->milliseconds", "") and "aws_timestamp_convert" not in stores.get("dt->milliseconds", "")
+                        l_ = f.d(el["a"][0])
+                        if l_ is not None and l_["k"] == "member" and l_.get("rec") == "aws_date_time":
+                            rhs[l_["f"]] = el["a"][1]
+            t_src = RU.origin(f, rhs.get("timestamp")) if rhs.get("timestamp") is not None else None
+            m_src = RU.uncast(f, rhs.get("milliseconds")) if rhs.get("milliseconds") is not None else None
+            ok = t_src is conv[0].node and m_src is not None and m_src["k"] == "var" and m_src["n"] == rem
         R.check(ok, "UNITS", "init_epoch_millis:quotient-and-remainder", "%s()" % f.name, "timestamp gets the quotient in seconds, milliseconds the remainder")
 
 
@@ -541,9 +591,16 @@ def fraction_digits(R, P):
         for s_, c_, p_ in edges(f, b):
             if s_ in body or c_ is None or not isinstance(p_, bool):
                 continue
-            names = {x.get("n") or x.get("f") or x.get("callee") for x in f.walk(f.d(c_), follow_refs=True) if x["k"] in ("var", "member", "call")}
-            names.discard(None)
-            if "num_digits" in names or not (names <= {"i", "str", "len", "ptr", "aws_isdigit", "c"}):
+            # a way out of the scan is either "not a digit" or "end of the text" (a position compared with the cursor's
+            # length) - never a count compared with a constant
+            cc, neg = RU.cond_call(f, c_)
+            if cc is not None and cc.get("callee") == "aws_isdigit":
+                continue
+            g_ = RU.cmp_norm(f, c_, p_)
+            sides = [g_[0], g_[2]] if g_ and g_[2] is not None else []
+            has_len = any(x["k"] == "member" and x["f"] == "len" and x.get("rec") == "aws_byte_cursor" for s2 in sides for x in f.walk(f.d(s2), follow_refs=True))
+            isdig = any(x["k"] == "call" and x.get("callee") == "aws_isdigit" for x in f.walk(f.d(c_), follow_refs=True))
+            if not has_len and not isdig:
                 bad.append(f.show(f.d(c_))[:60])
     adv = f.calls("aws_byte_cursor_advance")
     okadv = any("num_digits" in f.show(RU.arg(f, e.node, 1)) for e in adv)
